@@ -7,6 +7,8 @@ V = Path(__file__).resolve().parent.parent
 PY = "/venv/bin/python"
 
 CHECKS = {
+    "C01": ("kernel-checked table theorems (all 442 shipped per-definition decoders = Spec.compileDec of their database entries; the three dictionaries = the database's enumerations; regenerated from pgns.py and canboat.json on every run) + generic Lean theorems about running a compiled decoder for EVERY entry and payload (header, field metadata in order, each statically positioned field = the database-derived codec at the field's own offset, locality in the field's bits, not-available <-> no value, totality for integer-resolution numbers in range) + correspondence of the interpreter/codec models with all real decoders on database-derived boundary payloads + a database-only oracle over the same payloads",
+            "trusts the T1 translator (validated end-to-end), Spec.compile* as the reading of the database, hand models Codec/Interp tied by T3; non-ASCII/UTF-16 text decoding not modelled; totality for decimal resolutions rests on the oracle and correspondence, not on a theorem", "5 C01"),
     "C03": ("Lean 4 theorems over the hand model Fast (frames well-formed, counter advance, in-order round trip from any admissible stream state, consecutive messages) + exhaustive correspondence of the model with _encode_fast_message/_decode_fast_message over all 224 lengths x 8 counters",
             "hand model tied by T3 differential runs; the per-PGN decode step is replaced by a payload capture", "2.2, 5 C03"),
     "C04": ("Lean 4 theorems: stream independence of the keyed table for every interleaving (C04_interleaving), exactness within a message under any permutation/duplication/loss of later frames incl. padding (C04_exact), clean restart after loss (C04_after_segment); correspondence on enumerated and random multi-stream histories",
